@@ -11,6 +11,7 @@ LEVEL_TEXT = {
  "C04": "Proof of the structural cause only (H_tilde = S[U†HU], U unitary, R[U†HU] = 0); the spectral comparison itself is numerical and not claimed.",
  "C05": "Same certificate for the non-Hermitian algorithm; one obligation fails today (recorded defect K1), hence rule conformance, not proof.",
  "C06": "Structural necessary conditions only: breaking any of them makes implicit != explicit for generic complex input; numerical equality of the two paths is not decided.",
+ "C07": "One clause only (U†U = 1 and U†HU = H_tilde within the operator algebra): E1's certificate transfers once the operator-mode wiring supplies the algebra faithfully (E12 entry/exit maps, operator solver, masks); the Fock-state comparison with truncated matrices is not decided.",
  "C08": "Rule conformance on necessary conditions of faithfulness (operator order, shift effects, crossing sets, linear structure); the undecided remainder is listed.",
  "C09": "Translation validation of the compiler's output for the shipped and the documented program under all index classes and flag combinations.",
  "C10": "Ownership / effect analysis, exhaustive over the functions of the evaluation modules.",
@@ -31,6 +32,7 @@ TECH = {
  "C04": "static analysis: term rewriting over the DSL AST",
  "C05": "static analysis: term rewriting over the DSL AST",
  "C06": "static analysis: AST wiring rules, operator-denotation evaluation, CFG dominance",
+ "C07": "static analysis: term rewriting over the DSL AST; resolved-path case tables of the operator-mode entry/exit closures (AST path enumeration with a small typestate), solver-selection and mask wiring rules",
  "C08": "static analysis: path-sensitive effect abstraction over the AST (finite domain), order extraction and comparison",
  "C09": "static analysis: abstract interpretation of the compiler's generated ASTs vs reference translation",
  "C10": "static analysis: flow-sensitive freshness (ownership/effect) dataflow, who-may-write rules",
@@ -44,7 +46,7 @@ TECH = {
  "C19": "static analysis: abstract interpretation of the validator on representatives of the declared union; CFG dominators",
  "C20": "static analysis: guard path-condition truth tables, CFG dominance, return-totality on CFG",
 }
-ENGINE = {"C01":"E1","C02":"E1+E2","C03":"E1","C04":"E1","C05":"E1","C06":"E8+E6+E7","C08":"E10","C09":"E9","C10":"E4+E3","C11":"E3",
+ENGINE = {"C01":"E1","C02":"E1+E2","C03":"E1","C04":"E1","C05":"E1","C06":"E8+E6+E7","C07":"E1+E12+E7+E10","C08":"E10","C09":"E9","C10":"E4+E3","C11":"E3",
           "C12":"E2","C13":"E2","C14":"E6+E2","C16":"E7","C17":"E6","C18":"E2","C19":"E2+E3","C20":"E5+E7"}
 checks = []
 for pid, spec in PROPS.items():
@@ -73,15 +75,17 @@ manifest = {
  },
  "engines": [
   {"name": "E1", "path": "sv/e1.py sv/e1b.py sv/algebra.py sv/dsl.py", "serves_properties": ["C01","C02","C03","C04","C05","C18"], "kind_free_text": "equational certificate of the algorithm DSL by term rewriting; projection-pair and scope rules"},
-  {"name": "E2", "path": "sv/e2.py sv/e2b.py sv/paths.py sv/absval.py", "serves_properties": ["C01","C02","C09","C12","C13","C14","C18","C19"], "kind_free_text": "order/grading analyses: range/affine, multiplicity tables, dominance, laziness, validator exhaustiveness"},
+  {"name": "E2", "path": "sv/e2.py sv/e2b.py sv/e2c.py sv/paths.py sv/absval.py sv/sem.py sv/resolve.py", "serves_properties": ["C01","C02","C03","C04","C05","C07","C09","C12","C13","C14","C18","C19"], "kind_free_text": "order/grading analyses: range/affine, multiplicity tables, dominance, laziness, validator exhaustiveness"},
   {"name": "E3", "path": "sv/e3.py sv/cfg.py", "serves_properties": ["C10","C11","C12","C19"], "kind_free_text": "typestate of the memo on a CFG with exceptional edges; who-may-write"},
   {"name": "E4", "path": "sv/e4.py", "serves_properties": ["C10","C11"], "kind_free_text": "flow-sensitive freshness / in-place-mutation analysis; closure-state inventory"},
   {"name": "E5", "path": "sv/e5.py", "serves_properties": ["C20","C14"], "kind_free_text": "validation guards: truth tables, dominance, callback totality"},
   {"name": "E6", "path": "sv/e6.py sv/linden.py", "serves_properties": ["C17","C06","C14","C16"], "kind_free_text": "operator denotation of ComplementProjector; base-state rule against the installed SciPy"},
-  {"name": "E7", "path": "sv/e7.py", "serves_properties": ["C16","C01","C06","C11","C20"], "kind_free_text": "Sylvester / Green's-function solver siblings"},
+  {"name": "E7", "path": "sv/e7.py sv/e7b.py", "serves_properties": ["C16","C01","C02","C03","C04","C05","C06","C07","C10","C11","C13","C20"], "kind_free_text": "Sylvester / Green's-function solver siblings on resolved paths (diagonal, direct, KPM, second-quantised)"},
   {"name": "E8", "path": "sv/e8.py", "serves_properties": ["C06"], "kind_free_text": "implicit-mode wiring"},
-  {"name": "E9", "path": "sv/e9.py", "serves_properties": ["C09","C12"], "kind_free_text": "translation validation of the DSL compiler's IR"},
-  {"name": "E10", "path": "sv/e10.py", "serves_properties": ["C08"], "kind_free_text": "NumberOrderedForm order agreement, crossing sets, shift-effect table"},
+  {"name": "E9", "path": "sv/e9.py", "serves_properties": ["C09","C10","C12","C01","C02","C03","C04","C05","C07"], "kind_free_text": "translation validation of the DSL compiler's IR; runtime support; deletion safety"},
+  {"name": "E10", "path": "sv/e10.py", "serves_properties": ["C08","C07"], "kind_free_text": "NumberOrderedForm order agreement, crossing sets, shift-effect table"},
+  {"name": "E11", "path": "sv/e11.py", "serves_properties": ["C01","C02","C03","C04","C05","C06","C07","C14","C16","C20"], "kind_free_text": "contracts of the small helper functions the other engines rely on"},
+  {"name": "E12", "path": "sv/e12.py", "serves_properties": ["C07"], "kind_free_text": "operator-mode wiring of block_diagonalize (entry / exit maps, solver selection)"},
  ],
  "checks": checks,
  "not_applicable": [{"property_id": k, "reason": v} for k, v in NOT_APPLICABLE.items()],
